@@ -678,9 +678,13 @@ pub fn near_misses(p: &Program) -> Vec<(String, Program)> {
             g.params.push(("extra_".into(), Ty::U(8)));
             variants.push(("fn-add-param".into(), g));
             if !f.params.is_empty() {
-                let mut g = f.clone();
-                g.params.pop();
-                variants.push(("fn-drop-param".into(), g));
+                // every parameter dropped in turn (a step function that loses one parameter may still be a valid
+                // function, which is exactly when the fold / for_while signature checks are on their own)
+                for k in 0..f.params.len() {
+                    let mut g = f.clone();
+                    g.params.remove(k);
+                    variants.push(("fn-drop-param".into(), g));
+                }
                 if f.params.len() >= 2 {
                     let mut g = f.clone();
                     g.params.swap(0, 1);
